@@ -134,12 +134,22 @@ class G:
     def items(self, n, prefix, style=None):
         """Item descriptors with aliases / sub-variable ids / element ids."""
         r = self.r
-        style = style or self.pick(["std", "std", "scatter"])
+        style = style or self.pick(["std", "std", "scatter", "crossed"])
         out = []
-        elem_ids = list(range(1, n + 1)) if style == "std" else r.sample(range(0, 40), n)
+        elem_ids = list(range(1, n + 1)) if style in ("std", "crossed") else r.sample(
+            range(0, 40), n)
         for j in range(n):
+            if style == "std":
+                sv = "%04d" % (j + 1)
+            elif style == "crossed":
+                # zero-padded digit strings whose number is the element id of ANOTHER item
+                # (sub-variables re-ordered after creation): "0002" must resolve by the
+                # sub-variable-id rule, never as the number 2
+                sv = "%04d" % elem_ids[(j + 1) % n]
+            else:
+                sv = "sv%s%d" % (prefix, j)
             out.append({"alias": "%s_it%d" % (prefix, j + 1), "name": "%s item %d" % (prefix, j + 1),
-                        "subvar_id": "%04d" % (j + 1) if style == "std" else "sv%s%d" % (prefix, j),
+                        "subvar_id": sv,
                         "elem_id": elem_ids[j], "derived": False, "anchor": None})
         return out
 
